@@ -1479,7 +1479,52 @@ def arange(*a, dtype=None):
         n = mk_int(z3.If(n.z > 0, n.z, 0))
     else:
         n = max(n, 0)
-    return NDArray((n,), lambda i: i[0] + start, as_dtype(dtype, INT64))
+    r = NDArray((n,), lambda i: i[0] + start, as_dtype(dtype, INT64))
+    # an arange enumerates start .. stop-1 once each, ascending: membership and position are arithmetic
+    r.member_fn = lambda m: mk_bool(z3.And(zint(m) >= zint(start), zint(m) < zint(start) + zint(n)))
+    r.position_fn = lambda m: m - start
+    return r
+
+
+def np_where(condition, x=None, y=None):
+    """NP-WHERE: where(c, x, y) element-wise with broadcasting: x where c holds, else y; the result type follows numpy (an integer and a
+    float give float64; a float and a NaN stay float). where(c) alone is nonzero(c)."""
+    used('NP-WHERE')
+    if x is None and y is None:
+        return nonzero(condition)
+    if x is None or y is None:
+        raise_(ValueError, 'either both or neither of x and y should be given')
+    from .floats import SFloat, to_sfloat
+    c = asarray(condition)
+    xa, ya = (asarray(x) if isinstance(x, (NDArray, list, tuple, SymSeq)) else x), (asarray(y) if isinstance(y, (NDArray, list, tuple, SymSeq)) else y)
+    if any(isinstance(v, NDArray) and v.mask_fn is not None for v in (c, xa, ya)):
+        raise Unsupported('numpy.where on masked arrays')
+
+    def kind_of(v):
+        if isinstance(v, NDArray):
+            return v.dtype
+        return guess_dtype(v)
+    dx, dy = kind_of(xa), kind_of(ya)
+    out = _result_dtype(dx, dy)
+    floaty = out.kind == 'f'
+    shapes = [v.shape for v in (c, xa, ya) if isinstance(v, NDArray)]
+    shp = shapes[0]
+    for sh in shapes[1:]:
+        shp = broadcast_shapes(shp, sh)
+    nd = len(shp)
+    cf = c.frozen()
+    xf = xa.frozen() if isinstance(xa, NDArray) else None
+    yf = ya.frozen() if isinstance(ya, NDArray) else None
+
+    def fn(i):
+        k = truthy(cf.fn(bidx(i, cf.shape, nd)))
+        a = xf.fn(bidx(i, xf.shape, nd)) if xf is not None else xa
+        b = yf.fn(bidx(i, yf.shape, nd)) if yf is not None else ya
+        if floaty:
+            a, b = to_sfloat(to_float(a)), to_sfloat(to_float(b))
+            return SFloat(s_ite(k, a.kind, b.kind), s_ite(k, a.val, b.val))
+        return s_ite(k, a, b)
+    return NDArray(shp, fn, out)
 
 
 def linspace(start, stop, num=50, endpoint=True, **kw):
@@ -2608,6 +2653,7 @@ class NumpyModule:
     empty = staticmethod(empty)
     arange = staticmethod(arange)
     linspace = staticmethod(linspace)
+    where = staticmethod(np_where)
     indices = staticmethod(indices)
     prod = staticmethod(np_prod)
     ravel_multi_index = staticmethod(ravel_multi_index)
